@@ -377,3 +377,15 @@ def id_check(ctx, report, m, f):
             good = True
     report.check("ID", "id-is-v4", good, "the value of `id` is compared with \"v4\" (where it is read, or by the verify() gate) and any other value is rejected",
                  "a record whose `id` is not \"v4\" is not rejected where the value is read", fn=f.path, sp=cl[0][1] if cl else f.span, config=cfg)
+
+
+_own_run = run
+
+
+def run(ctx, report):
+    _own_run(ctx, report)
+    from common import Only
+    from rules import c01
+    # "a public key of the record's key type": which entry each key type reads (CombinedKey: secp256k1, else ed25519)
+    c01.pubkey_rule(ctx, Only(report, {"PUBKEY": "PUBKEY"}))
+
